@@ -127,6 +127,13 @@ def run(chk: Check) -> None:
     n_par = _ctor_copies(chk)
     chk.floor("R04.5", "iterable/mapping constructor parameters", n_par, 25)
     _identity(chk, own)
+    # the IR's module list: hook/store pairing and live-iterable discipline of its mutators
+    from .c16 import _list_hooks, _materialised
+    from ..types import TypeEnv
+    sub = chk.sub()
+    _list_hooks(sub, TypeEnv(chk.repo))
+    _materialised(sub, TypeEnv(chk.repo))
+    chk.adopt(sub, lambda o: o.rule in ("R16.4c", "R16.9"), "R04.2")
 
 
 # ---------------------------------------------------------------------------
@@ -420,6 +427,10 @@ def _copy_context(node: ast.Name, me: str) -> bool:
                     last = d[-1]
                     if last in _COPYING or last in ("update", "extend", "union", "__init__"):
                         return True
+                    if last in ("from_iterable", "chain", "iter", "map", "zip", "enumerate", "reversed", "filter"):
+                        # a lazy view of the argument: what happens to the view decides
+                        cur, par = par, getattr(par, "_parent", None)
+                        continue
                     if last[:1].isupper() or last.startswith("_") and last[1:2].isupper():
                         return True    # wrapper / collection constructor (copies per its own rule)
                     if last == "cast" and len(par.args) == 2 and par.args[1] is cur:
